@@ -76,8 +76,7 @@ def cl(a, b, c=0):
 def needs_prelude(x):
     """does the statement mention a C callee, the K objects or the typed names"""
     if isinstance(x, tuple) and x:
-        if x[0] == "ccall" or (x[0] == "leaf" and x[1] == "K") or (x[0] == "name" and x[1] == "kobj") \
-                or x[0] == "raw":
+        if x[0] == "ccall" or (x[0] == "leaf" and x[1] == "K") or (x[0] == "name" and x[1] == "kobj"):
             return True
     if isinstance(x, (tuple, list)):
         return any(needs_prelude(y) for y in x)
@@ -129,11 +128,12 @@ def call_shapes(fname):
 #   T    logging call                                  not simple
 #   sub  T(i)[T(j)]                                    not simple
 #   neg  -x   (an operation on a name, no leaf)        not simple
+#   fst2 f"{T(i)}{T(j)}" (AddNode chain at that stage)  not simple
 #   x    a name                                        simple
 #   none None                                          simple
 #   xa   x.a  attribute of a name                      taken for simple, has a side effect
 #   or / and / cond / tup / lst / dct / fst            taken for simple (class-level is_temp), evaluate leaves
-NONSIMPLE = ["T", "sub", "neg"]
+NONSIMPLE = ["T", "sub", "neg", "fst2"]
 SIMPLE = ["x", "none"]
 FALSE_SIMPLE = ["xa", "or", "and", "cond", "tup", "lst", "dct", "fst", "xab"]
 
@@ -171,6 +171,8 @@ def mk_arg(g, kind, ctyped=False):
         return ("dict", [(L(), L())])
     if kind == "fst":
         return ("fstr", [L()])
+    if kind == "fst2":
+        return ("fstr", [L(), L()])
     raise ValueError(kind)
 
 
@@ -206,8 +208,9 @@ def systematic_calls(g, quick):
                 fam.append(["T"] * m)
                 if not quick or rng.random() < 0.25:
                     for p in range(m):
-                        k1 = ["T"] * m; k1[p] = rng.choice(SIMPLE); fam.append(k1)
-                        k2 = ["T"] * m; k2[p] = rng.choice(FALSE_SIMPLE); fam.append(k2)
+                        k1 = ["T"] * m
+                        k1[p] = rng.choice(SIMPLE) if (p + len(fam)) % 2 else rng.choice(FALSE_SIMPLE)
+                        fam.append(k1)
                     for _ in range(2):
                         fam.append([rng.choice(NONSIMPLE + SIMPLE + FALSE_SIMPLE) for _ in range(m)])
                     fam.append([rng.choice(FALSE_SIMPLE) for _ in range(m)])
@@ -331,9 +334,9 @@ def tie_cases(g, quick):
             if not perm:
                 continue        # purely positional: a SimpleCallNode from the start, no mapping
             m = npos + len(perm)
-            if quick and m > 3:
+            if quick and m > 2:
                 pats = {tuple(["T"] * m)}
-                for _ in range(2):
+                for _ in range(2 if m > 3 else 3):
                     pats.add(tuple(rng.choice(["T", "T", "x"]) for _ in range(m)))
             else:
                 pats = set(itertools.product(["T", "x"], repeat=m))
